@@ -277,6 +277,7 @@ def eval_dist(rp):
 
 # ----------------------------------------------------------------------------- B: mixture models
 _PROFILE = {}
+_CM = {}
 
 
 def near_one_gains(rng, shape, real=False, width=8e-6):
@@ -294,7 +295,7 @@ def case_model(rng, tier, i, name=None, large=False, profile=None):
     if large:
         K, D, N = 2, 3, int(rng.integers(18000, 40000))        # a long recording (block-wise normalisation, remainders)
     if name in mm.INTEGRATION:
-        lead = (int(rng.integers(1, 4)),)
+        lead = (int(rng.integers(2, 4)),) if profile == 'viewed' else (int(rng.integers(1, 4)),)
     else:
         lead = tuple(int(v) for v in rng.integers(1, 4, int(rng.integers(0, 3))))
     if name == 'cbmm':
@@ -335,9 +336,19 @@ def case_model(rng, tier, i, name=None, large=False, profile=None):
         ce = None if ce is None else near_one_gains(rng, ce.shape, real=True, width=width)
     if profile == 'single':
         cs, ce = None, gains(rng, data['embedding'].shape[:-1] + (1,), real=True)
+    if profile == 'viewed':
+        # moderate gains (three decades) on the embedding alone, every array handed over as a non-contiguous view
+        if name == 'vmfcacgmm':
+            cs, ce = None, 10.0 ** rng.uniform(-3, 3, size=data['embedding'].shape[:-1] + (1,))
+        else:       # the Gaussian embedding stream of GCACGMM is not a directional stream: gains on the observation only
+            cs, ce = gains(rng, data['observation'].shape[:-1] + (1,)), None
     u = rng.random()
     start = 'num_classes' if (u < 0.1 and 'source_activity_mask' not in opts) else ('model' if (u < 0.3 and name == 'cacgmm') else 'init')
+    _CM[name] = _CM.get(name, 0) + 1
+    if profile == 'viewed':
+        start, _CM[name] = 'init', 3 * (_CM[name] // 3) + 2
     rp = {'fn': 'model', 'model': name, 'data': data, 'init': init, 'cs': cs, 'ce': ce, 'start': start,
+          'container': _CM[name] % 3,        # plain / reused trainer with refilled buffers / non-contiguous views: every model, every run
           'np_seed': int(rng.integers(0, 2 ** 31)),
           'opts': {k: v for k, v in opts.items() if k != 'inline_permutation_aligner'},
           'aligner': 'inline_permutation_aligner' in opts, 'iterations': iters, 'pick': int(rng.integers(0, 2 ** 31))}
@@ -346,7 +357,7 @@ def case_model(rng, tier, i, name=None, large=False, profile=None):
         name, '' if profile is None else '/' + profile, K, D, N, lead, iters, style if start == 'init' else start, '+'.join(s for s, c in (('spatial', cs), ('embedding', ce)) if c is not None), sp,
         mm.describe_options(opts))
     fail, key, coq, nt = eval_model(rp)
-    return Case(label, coq=coq, pred_fail=fail, key=key, nontrivial=bool(nt and (sp >= 20 or profile == 'near1')),
+    return Case(label, coq=coq, pred_fail=fail, key=key, nontrivial=bool(nt and (sp >= 20 or profile in ('near1', 'viewed'))),
                 digest_=core.digest(label, *data.values(), init, *[c for c in (cs, ce) if c is not None]),
                 sample={'name': label}, replay=rp, kind='model/' + name)
 
@@ -383,7 +394,7 @@ def eval_model(rp):
             return mm.fit(name, dd, None, num_classes=K, iterations=iters, **opts)
         if start == 'model':        # continue from a fitted model (E-step first); the start model is fitted on y
             return mm.fit(name, dd, first, iterations=iters, **{k: v for k, v in opts.items()})
-        return mm.fit(name, dd, init, iterations=iters, **opts)
+        return mm.fit(name, dd, init, iterations=iters, container=rp.get('container'), **opts)
     try:
         m0 = mm.fit(name, data, init, iterations=1, **opts)[0] if start == 'model' else None
         with EighTap() as tap1:
@@ -440,7 +451,7 @@ def eval_model(rp):
                 else:
                     dp[kk] = vv * (1 + 1e-13 * pr.uniform(-1, 1, vv.shape))
             try:
-                mp, _ = mm.fit(name, dp, ip, iterations=iters, **opts)
+                mp, _ = mm.fit(name, dp, ip, iterations=iters, container=rp.get('container'), **opts)     # same container as the fit under test
                 op = observables(name, mp)
                 vals = [relm(o1[kq], op[kq]) if 'covariance' in kq or 'projector' in kq else rel(o1[kq], op[kq]) for kq in o1]
                 vals.append(rel(p11, mm.predict(name, mp, dp, **pk)))
@@ -577,6 +588,8 @@ def cases(rng, tier):
                               profile='near1' if (i // len(DIRECTIONAL)) % 4 == 3 else None))
     for i in range(2 if q else 12):
         out.append(case_model(rng, tier, i, name='vmfcacgmm', profile='single'))
+    for i in range(4 if q else 12):
+        out.append(case_model(rng, tier, i, name=['vmfcacgmm', 'vmfcacgmm', 'vmfcacgmm', 'gcacgmm'][i % 4], profile='viewed'))
     for i in range(3 if q else 12):
         out.append(case_model(rng, tier, i, name=['cacgmm', 'cwmm', 'vmfmm', 'cacgmm'][i % 4], large=True))
     return out
